@@ -1,6 +1,9 @@
 """C06 — Dataset binning, Fourier resampling, padding and cropping obey conservation laws.
 
 Streams
+  hist      short operation histories on ONE dataset object (fourier_resample, in-place / copying pad, bin, crop, array assignment,
+            fourier_resample again with the same axes): array values vs the composed model after every step + the resample clauses
+            judged against the data the object held before the step (stale per-object state cannot hide)
   exact     integer / Gaussian-integer arrays through the real Dataset.bin / pad / crop vs the Lean model at Rat
             (equality) + the statement's bin / pad∘crop clauses checked with exact Python oracles
   float     random float64/complex128 (some int/float32) arrays through the real fourier_resample vs the Lean model at
@@ -56,6 +59,7 @@ RULE = ("a case is one operation (or one law instance) on one array; distinct no
         "axes pattern, parity pattern / divisibility pattern, reducer or up/down direction) with at least 2 elements")
 TRUSTED = ["np.fft.fftn/ifftn compute the defining DFT sums; np.pad / reshape / sum semantics (modelled as gathers and block sums)"]
 ASSUMPTIONS = [
+    "calibration reaches the datasets through every route: float lists, Python int tuples and integer ndarrays via Dataset/Dataset2d/3d/4d/4dstem.from_array or via the origin/sampling property setters (35 % integer-typed)",
     "exact stream: integer (or Gaussian-integer) data with |x| <= 9 — and, for 40 % of the bin cases, narrow integer dtypes (uint8/int8/uint16/int16/int32/uint32) with values within 20 % of the dtype extremes, checked against an exact Python-integer block-sum oracle —, dyadic calibration, so every float operation of the code is exact and equality is demanded; mean reducer compared exactly when the block volume is a power of two, else to 1e-12 (float64) / 5e-4 (float32)",
     "float stream: tolerance |impl - model| <= 1e-9 * max(1, max|model|) on float64/complex128 data, 5e-4 on float32/complex64 data; law predicates use 1e-9 (5e-4) relative to max(1, max|x|)",
     "'cropping the pad widths' is read as crop(((before, -after), ...)) — the only reading under which Dataset.crop (start, stop) slices undo a pad; `-0` is why the code maps after == 0 to None",
@@ -93,10 +97,27 @@ def gen_axes_subset(rng, ndim):
     return {"many": axes}
 
 
+def cal_value(v, route):
+    """calibration list -> the Python object handed to the code: float list, Python int tuple or integer ndarray"""
+    if route in ("int_tuple", "setter_tuple"):
+        return tuple(int(x) for x in v["l"])
+    if route in ("int_ndarray", "setter_ndarray"):
+        return np.array([int(x) for x in v["l"]], dtype=np.int64)
+    return ndinfo_py(v)
+
+
 def make_ds(new):
+    """every constructor / setter route for the calibration: (sub)class.from_array with float lists, Python int tuples or integer
+    ndarrays, or defaults followed by the `origin` / `sampling` property setters"""
     cls = cls_of(new["cls"])
     a = array_py(new["array"], new["dtype"])
-    return cls.from_array(a, origin=ndinfo_py(new["origin"]), sampling=ndinfo_py(new["sampling"]), units=list(new["units"]["l"]))
+    route = new.get("route", "float")
+    if route.startswith("setter"):
+        ds = cls.from_array(a, units=list(new["units"]["l"]))
+        ds.origin = cal_value(new["origin"], route)
+        ds.sampling = cal_value(new["sampling"], route)
+        return ds
+    return cls.from_array(a, origin=cal_value(new["origin"], route), sampling=cal_value(new["sampling"], route), units=list(new["units"]["l"]))
 
 
 NARROW = {"uint8": (0, 255), "int8": (-128, 127), "uint16": (0, 65535), "int16": (-32768, 32767),
@@ -133,6 +154,12 @@ def gen_exact_case(rng):
     o, s, u = gen_calib(rng, ndim)
     cls = "Dataset" if rng.chance(0.6) or ndim == 1 else {2: "Dataset2d", 3: "Dataset3d", 4: rng.choice(["Dataset4d", "Dataset4dstem"])}[ndim]
     new = {"op": "new", "cls": cls, "array": arr_json(a), "dtype": dtype, "origin": o, "sampling": s, "units": u}
+    if rng.chance(0.35):     # integer-typed calibration through every constructor / setter route (also on the subclasses' own from_array)
+        new["route"] = rng.choice(["int_tuple", "int_ndarray", "setter_tuple", "setter_ndarray"])
+        new["origin"] = {"l": [rng.randint(-5, 9) for _ in range(ndim)]}
+        new["sampling"] = {"l": [rng.randint(1, 5) for _ in range(ndim)]}
+        if ndim in (2, 3, 4) and rng.chance(0.6):
+            new["cls"] = {2: "Dataset2d", 3: "Dataset3d", 4: rng.choice(["Dataset4d", "Dataset4dstem"])}[ndim]
     kind = rng.weighted([("bin", 5), ("padcrop", 3), ("pad", 1), ("crop", 1)])
     if kind == "bin" and rng.chance(0.4):
         dtype = rng.choice(sorted(NARROW))
@@ -228,6 +255,7 @@ def check_exact_case(ctx, drv, case):
     ctx.dist[f"exact:{kind}"] += 1
     ctx.dist[f"exact:ndim{ndim}"] += 1
     ctx.dist["exact:dtype:" + new["dtype"] + (":extreme" if new.get("extreme") else "")] += 1
+    ctx.dist["exact:calibration-route:" + new.get("route", "float")] += 1
     parity = "".join("e" if n % 2 == 0 else "o" for n in shape)
     if a0.size >= 2:
         sig_axes = "all" if op.get("axes") is None else ("neg" if any(a < 0 for a in axes_list(op.get("axes"), ndim)) else "sub")
@@ -306,7 +334,7 @@ def check_exact_case(ctx, drv, case):
                           observed=[str(x) for x in ro], required=[str(x) for x in req_o])
     # ---- correspondence with the model
     reqs = [dict({k: v for k, v in o.items() if k not in ("dtype",)}, follow=not o.get("inplace")) for o in ops]
-    ans = drv.ask({"op": "exact", "new": {k: v for k, v in new.items()}, "ops": reqs})
+    ans = drv.ask({"op": "exact", "new": {k: v for k, v in new.items() if k not in ("route", "extreme")}, "ops": reqs})
     if "err" in ans:
         raise RuntimeError(f"driver error {ans}")
     last = ans["ok"][-1]
@@ -371,7 +399,8 @@ def gen_float_case(rng):
     mode = rng.weighted([("out_shape", 3), ("factors", 1)])
     neg = rng.chance(0.25)
     return {"stream": "float", "shape": shape, "axes": axes, "outs": outs, "dtype": dtype, "seed": seedv, "mode": mode, "neg_axes": neg,
-            "inplace": rng.chance(0.3)}
+            "inplace": rng.chance(0.3),
+            "route": "float" if rng.chance(0.65) else rng.choice(["int_tuple", "int_ndarray", "setter_tuple", "setter_ndarray"])}
 
 
 def float_array(case, which=0):
@@ -412,9 +441,25 @@ def check_float_case(ctx, drv, case):
     shape, axes, outs = case["shape"], case["axes"], case["outs"]
     ndim = len(shape)
     x = float_array(case)
-    o0 = [Fraction(k, 2) - 1 for k in range(ndim)]
-    s0 = [Fraction(k + 1, 4) for k in range(ndim)]
-    mk = lambda arr: Dataset.from_array(arr.copy(), origin=[float(v) for v in o0], sampling=[float(v) for v in s0])  # noqa
+    route = case.get("route", "float")
+    if route == "float":
+        o0 = [Fraction(k, 2) - 1 for k in range(ndim)]
+        s0 = [Fraction(k + 1, 4) for k in range(ndim)]
+        mk = lambda arr: Dataset.from_array(arr.copy(), origin=[float(v) for v in o0], sampling=[float(v) for v in s0])  # noqa
+    else:       # integer-typed calibration (Python int tuple / integer ndarray) through subclass constructors or the property setters
+        o0 = [Fraction(k - 1) for k in range(ndim)]
+        s0 = [Fraction(k + 1) for k in range(ndim)]
+        kls = cls_of({2: "Dataset2d", 3: "Dataset3d"}.get(ndim, "Dataset"))
+        cal = {"origin": {"l": [int(v) for v in o0]}, "sampling": {"l": [int(v) for v in s0]}}
+
+        def mk(arr):
+            if route.startswith("setter"):
+                d_ = kls.from_array(arr.copy())
+                d_.origin = cal_value(cal["origin"], route)
+                d_.sampling = cal_value(cal["sampling"], route)
+                return d_
+            return kls.from_array(arr.copy(), origin=cal_value(cal["origin"], route), sampling=cal_value(cal["sampling"], route))
+    ctx.dist["float:calibration-route:" + route] += 1
     tol = tol_for(x.dtype)
     sfx = "_f64" if tol == 1e-9 else "_f32"
     ctx.count()
@@ -581,10 +626,178 @@ def run_indexmap(ctx, drv, nmax):
     ctx.extra["indexmap_exhaustive"] = f"all (n, m, k) with 1 <= n, m <= {nmax}, 0 <= k < n"
 
 
+# ------------------------------------------------------------------------------------------
+# value histories: several operations on ONE dataset object, array values compared with the model after every step
+
+def gen_history(rng):
+    ndim = rng.weighted([(1, 3), (2, 4), (3, 1)])
+    cap = {1: 10, 2: 7, 3: 4}[ndim]
+    shape = [rng.randint(2, cap) for _ in range(ndim)]
+    k = rng.randint(1, ndim)
+    axes = sorted(rng.sample(list(range(ndim)), k))
+    dtype = rng.weighted([("float64", 5), ("complex128", 3), ("int32", 1)])
+    steps = []
+    cur = list(shape)
+
+    def resample_step():
+        ax = axes if rng.chance(0.85) else sorted(rng.sample(list(range(ndim)), rng.randint(1, ndim)))
+        outs = [max(1, cur[a] + rng.randint(-2, 3)) if not rng.chance(0.2) else cur[a] for a in ax]
+        st = {"op": "resample", "axes": ax, "outs": outs, "inplace": rng.chance(0.4), "neg": rng.chance(0.15)}
+        st["follow"] = (not st["inplace"]) and rng.chance(0.35)      # otherwise the history stays on the source object
+        if st["inplace"] or st["follow"]:
+            for a, m in zip(ax, outs):
+                cur[a] = m
+        return st
+
+    def mutate_step():
+        kind = rng.weighted([("pad", 4), ("bin", 4), ("crop", 2), ("set_array", 1)])
+        ip = rng.chance(0.75)
+        st = {"op": kind, "inplace": ip, "follow": (not ip) and rng.chance(0.5)}
+        new = list(cur)
+        if kind == "pad":
+            st["widths"] = [[rng.randint(0, 2), rng.randint(0, 2)] for _ in range(ndim)]
+            new = [n + b + a for n, (b, a) in zip(cur, st["widths"])]
+        elif kind == "bin":
+            a = rng.below(ndim)
+            f = 2 if cur[a] >= 2 else 1
+            st["axis"], st["f"] = a, f
+            new[a] = cur[a] // f
+        elif kind == "crop":
+            st["widths"] = [[rng.randint(0, 1), -rng.randint(0, 1)] if n >= 3 else [0, 0] for n in cur]
+            new = [n - b + a for n, (b, a) in zip(cur, st["widths"])]
+        else:
+            st["inplace"], st["follow"] = True, False
+        if st["inplace"] or st["follow"]:
+            cur[:] = new
+        return st
+
+    steps.append(resample_step())
+    for _ in range(rng.randint(1, 2)):
+        for _ in range(rng.randint(1, 2)):
+            steps.append(mutate_step())
+        steps.append(resample_step())
+    return {"stream": "hist", "shape": shape, "dtype": dtype, "seed": rng.next() & 0xFFFFFFFF, "steps": steps}
+
+
+def model_exact(drv, marr, mreal, opreq):
+    """pad / crop / bin of the model's current values through the exact (Rat) model"""
+    z = marr if not mreal else marr.real
+    new = {"op": "new", "cls": "Dataset", "array": arr_json(np.asarray(z)), "origin": None, "sampling": None, "units": None}
+    ans = drv.ask({"op": "exact", "new": new, "ops": [dict(opreq, inplace=True)]})
+    if "err" in ans:
+        raise RuntimeError(f"driver error {ans}")
+    m = ans["ok"][-1]
+    if "err" in m.get("r", {}):
+        return None
+    m = m["recv"]
+    re = np.array([float(jf(v)) for v in m["re"]], dtype=float).reshape(m["shape"])
+    im = np.array([float(jf(v)) for v in m["im"]], dtype=float).reshape(m["shape"]) if m.get("im") is not None else 0.0
+    return re + 1j * im
+
+
+def check_history(ctx, drv, case):
+    from quantem.core.datastructures import Dataset
+    warnings.simplefilter("ignore")
+    x = float_array({"seed": case["seed"], "shape": case["shape"], "dtype": case["dtype"]})
+    ds = Dataset.from_array(x.copy(), origin=[0.0] * x.ndim, sampling=[1.0] * x.ndim)
+    marr = np.asarray(x, dtype=np.complex128)
+    mreal = bool(np.isrealobj(x))
+    ctx.dist["hist:histories"] += 1
+    for i, st in enumerate(case["steps"]):
+        sub = dict(case, steps=case["steps"][: i + 1])
+        before = ds.array.copy()
+        nd = before.ndim
+        ctx.count()
+        ctx.dist["hist:" + st["op"] + (":inplace" if st.get("inplace") else "")] += 1
+        ctx.mark(("hist", st["op"], bool(st.get("inplace")), nd, case["steps"][i - 1]["op"] if i else "new", np.dtype(case["dtype"]).kind))
+        try:
+            if st["op"] == "resample":
+                axes = tuple(a - nd if st.get("neg") else a for a in st["axes"])
+                r = ds.fourier_resample(out_shape=tuple(st["outs"]), axes=axes, modify_in_place=bool(st["inplace"]))
+            elif st["op"] == "pad":
+                r = ds.pad(pad_width=tuple(tuple(w) for w in st["widths"]), modify_in_place=bool(st["inplace"]))
+            elif st["op"] == "bin":
+                r = ds.bin(int(st["f"]), axes=(int(st["axis"]),), modify_in_place=bool(st["inplace"]))
+            elif st["op"] == "crop":
+                r = ds.crop(tuple(tuple(w) for w in st["widths"]), modify_in_place=bool(st["inplace"]))
+            else:
+                ds.array = before * 2 + 1
+                r = None
+        except Exception as e:  # noqa
+            ctx.pred_fail("hist-raises", f"step {i} ({st['op']}) of a valid history raised {err_name(e)}: {e}", sub, observed=err_name(e), required="result")
+            return
+        res = ds if st.get("inplace") or st["op"] == "set_array" else r
+        y = res.array
+        # ---- the model's value of this step, from the model's own current values
+        if st["op"] == "resample":
+            xr = marr.ravel()
+            ans = drv.ask({"op": "resample", "shape": list(marr.shape), "re": [f2b(v.real) for v in xr], "im": None if mreal else [f2b(v.imag) for v in xr],
+                           "axes": list(st["axes"]), "outs": list(st["outs"]), "real": mreal})
+            if "err" in ans:
+                raise RuntimeError(f"driver error {ans}")
+            mo = ans["ok"]
+            mnew = (np.array([b2f(v) for v in mo["re"]]).reshape(mo["shape"]) + 1j * np.array([b2f(v) for v in mo["im"]]).reshape(mo["shape"]))
+        elif st["op"] == "pad":
+            mnew = model_exact(drv, marr, mreal, {"op": "pad", "arg": {"per": st["widths"]}})
+        elif st["op"] == "bin":
+            mnew = model_exact(drv, marr, mreal, {"op": "bin", "f": {"many": [st["f"]]}, "axes": {"many": [st["axis"]]}, "mean": False})
+        elif st["op"] == "crop":
+            mnew = model_exact(drv, marr, mreal, {"op": "crop", "widths": st["widths"], "axes": None})
+        else:
+            mnew = marr * 2 + 1
+        # ---- the statement's clauses on this step, judged against the data the dataset held BEFORE the step
+        if st["op"] == "resample":
+            exp_shape = list(before.shape)
+            for a, m in zip(st["axes"], st["outs"]):
+                exp_shape[a] = m
+            scale = max(1.0, float(np.max(np.abs(before))) if before.size else 1.0)
+            if list(y.shape) != exp_shape:
+                ctx.pred_fail("resample-shape", "output shape is not the requested one (history on one object)", sub, observed=list(y.shape), required=exp_shape)
+                return
+            if abs(complex(np.mean(y)) - complex(np.mean(before))) > 1e-9 * scale:
+                ctx.pred_fail("resample-mean", "fourier_resample does not preserve the mean of the data the dataset currently holds", sub,
+                              observed=str(complex(np.mean(y))), required=str(complex(np.mean(before))))
+            oracle = dft_matrix_oracle(before, st["axes"], st["outs"])
+            if np.isrealobj(before):
+                oracle = oracle.real
+            d = float(np.max(np.abs(y - oracle))) if y.size else 0.0
+            ctx.stat_max("hist_impl_vs_dense_dft_oracle", d / scale)
+            if d > 1e-9 * scale:
+                ctx.pred_fail("resample-values", "fourier_resample of the current data differs from band-limited DFT resampling of that data", sub,
+                              observed=d, required=f"<= 1e-9*{scale}")
+            if list(st["outs"]) == [before.shape[a] for a in st["axes"]] and d <= 1e-9 * scale and float(np.max(np.abs(y - before))) > 1e-9 * scale:
+                ctx.pred_fail("resample-identity", "fourier_resample with unchanged shape is not the identity", sub, observed="changed", required="identity")
+        # ---- correspondence: values after every step
+        if mnew is None or list(mnew.shape) != list(y.shape):
+            ctx.disagree("hist", sub, {"shape": None if mnew is None else list(mnew.shape)}, {"shape": list(y.shape)}, note=f"step {i} {st['op']}: shape")
+            return
+        dd = float(np.max(np.abs(np.asarray(y, dtype=np.complex128) - mnew))) if y.size else 0.0
+        msc = max(1.0, float(np.max(np.abs(mnew))) if mnew.size else 1.0)
+        ctx.stat_max("hist_impl_vs_model", dd / msc)
+        if dd > 1e-9 * msc:
+            ctx.disagree("hist", sub, {"max_abs_model": msc}, {"max_abs_diff": dd}, note=f"step {i} {st['op']}: values")
+            return
+        if st["op"] == "resample":
+            mreal = mreal          # real stays real, complex stays complex
+        # continue on the receiver or on the returned dataset; the model follows the same object
+        if st.get("inplace") or st["op"] == "set_array" or st.get("follow"):
+            marr = mnew
+        if st.get("follow") and r is not None:
+            ds = r
+    ctx.sample({"stream": "hist", "shape": case["shape"], "dtype": case["dtype"], "steps": case["steps"][:4]}, limit=5)
+
+
+def run_hist(ctx, drv, n):
+    for c in range(n):
+        rng = ctx.rng.fork(90000 + c)
+        check_history(ctx, drv, gen_history(rng))
+
+
 def run(ctx):
     from qv.driver import Driver
     drv = Driver("C06")
     try:
+        run_hist(ctx, drv, ctx.n(250, 4000))
         run_exact(ctx, drv, ctx.n(1500, 40000))
         run_float(ctx, drv, ctx.n(400, 10000))
         if not ctx.search_mode:
@@ -604,6 +817,8 @@ def replay(ctx, rep):
             check_exact_case(ctx, drv, case)
         elif case.get("stream") == "float":
             check_float_case(ctx, drv, case)
+        elif case.get("stream") == "hist":
+            check_history(ctx, drv, case)
         else:
             run_indexmap(ctx, drv, max(case.get("n", 1), case.get("m", 1)))
     finally:
